@@ -204,6 +204,24 @@ def run_loop(case: dict[str, Any]) -> dict[str, Any]:
             viol.append({'mech': 'cause-vs-server-state', 'msg': f"{d['uid']} rv={d['rv']} event={d['etype']}: classified {d['reason']} but the server-side state "
                          f"(deleting={deleting}, own finalizer={hasfin}, stored state={'yes' if base is not None else 'no'}, essential difference={differs}, "
                          f"first-sight={d['initial']}) means {exp}", 'witness': {'detect': {k: d[k] for k in d if k not in ('old', 'new')}, 'stored': base, 'essence': ess}})
+    # "resume (first sight after start ...)": the first-sight flag itself is internal; at the boundary, an object whose FIRST appearance to this
+    # operator process was a watch event (it was created, or re-appeared, while the process was watching) is never at its first sight after the start
+    # again -- whatever re-listings follow. (An object first met in a RE-listing is the known finding of C14 and is not judged here.)
+    from kv.oracles import operator_feed
+    first_sight: dict[tuple[str, str], dict[str, Any]] = {}
+    for inc_name in w.incs:
+        for e in operator_feed(w, inc_name):
+            first_sight.setdefault((inc_name, e['uid']), e)
+    for d in detects:
+        fs = first_sight.get((d['inc'], d['uid']))
+        if fs is None:
+            continue
+        if fs['src'] == 'watch':
+            cov['first_seen_in_watch'] = cov.get('first_seen_in_watch', 0) + 1
+            if d['reason'] == 'resume' or d['cause_initial']:
+                viol.append({'mech': 'resume-for-object-first-seen-in-watch', 'msg': f"{d['uid']} rv={d['rv']} event={d['etype']}: classified {d['reason']} with the first-sight flag "
+                                     f"{d['cause_initial']} although this operator process first met the object in a {fs['type']} watch event at t={fs['t']} (rv={fs['rv']})", 'witness': None})
+                break
     # handler invocations against the classification that preceded them
     changing_calls = [c for c in ix.calls if c['kind'] in ('create', 'update', 'delete', 'resume', 'sub', 'field') and not c.get('post_mortem')]
     cov['calls_checked'] = len(changing_calls)
